@@ -121,13 +121,19 @@ TARGETED = [
 
 def run_seq_part(args):
     bd, hist, trace, wdir = args
-    r = subprocess.run([os.path.join(bd, "session"), "seq", hist, trace, wdir], stdout=subprocess.PIPE, stderr=subprocess.PIPE, text=True, timeout=1700)
+    try:
+        r = subprocess.run([os.path.join(bd, "session"), "seq", hist, trace, wdir], stdout=subprocess.PIPE, stderr=subprocess.PIPE, text=True, timeout=1700)
+    except subprocess.TimeoutExpired:
+        return 124, "timed out"
     return r.returncode, r.stderr[-600:]
 
 
 def run_conc_part(args):
     bd, trace, wdir, seed, runs, wd = args
-    r = subprocess.run([os.path.join(bd, "session"), "conc", trace, wdir, str(seed), str(runs), str(wd)], stdout=subprocess.PIPE, stderr=subprocess.PIPE, text=True, timeout=1700)
+    try:
+        r = subprocess.run([os.path.join(bd, "session"), "conc", trace, wdir, str(seed), str(runs), str(wd)], stdout=subprocess.PIPE, stderr=subprocess.PIPE, text=True, timeout=1700)
+    except subprocess.TimeoutExpired:
+        return 124, "timed out"
     return r.returncode, r.stderr[-600:]
 
 
